@@ -97,9 +97,62 @@ def _run_bounded(arg):
         r.update(name=b.name, function=b.function, bound=b.bound(tier) if callable(b.bound) else b.bound, kind=getattr(b, "kind", "bounded"))
         r.setdefault("seconds", time.time() - t0)
         return r
-    except Exception:
+    except Exception as exc:
+        under_test = _raised_in_code_under_test(exc)
+        if under_test is not None:
+            # the real function raised something the oracle did not expect on an input of the stand-in's (in-domain) grid:
+            # that is an answer of the code, not a failure of the checker
+            try:
+                nm, fnn, bd = b.name, b.function, (b.bound(tier) if callable(b.bound) else b.bound)
+            except Exception:
+                nm, fnn, bd = f"{modname}.BOUNDED[{idx}]", "?", "?"
+            return dict(name=nm, function=fnn, bound=bd, kind=getattr(b, "kind", "bounded"), cases=1, seconds=time.time() - t0,
+                        failures=[dict(input=under_test, detail=f"the code under check raised {type(exc).__name__}: {exc} (an exception the statement does not provide for on this input)")])
         return dict(name=f"{modname}.BOUNDED[{idx}]", function="?", bound="?", cases=0, failures=[],
                     error="checker crash: " + traceback.format_exc(), seconds=time.time() - t0)
+
+
+def _search(mod, tier, seed, errors):
+    """the property's statement-level search; an exception that escapes from the code under check while the search is
+    exercising it on an in-domain input is a failing input, any other exception is a crash of the search"""
+    try:
+        return mod.witness_search(tier, seed)
+    except Exception as e:
+        under_test = _raised_in_code_under_test(e)
+        if under_test is not None:
+            return dict(reproduced=True, input=under_test,
+                        detail=f"the code under check raised {type(e).__name__}: {e} (an exception the statement does not provide for on this input)")
+        errors.append(f"witness search crashed: {type(e).__name__}: {e}")
+        return None
+
+
+def _raised_in_code_under_test(exc):
+    """when the exception was raised in (or passed through) the repository under check after leaving the oracle: the
+    oracle's local variables at the point of the call (the input being examined), else None"""
+    root = os.path.realpath(os.environ.get("SIMFILE_REPO") or "/repo") + os.sep
+    tb = exc.__traceback__
+    frames = []
+    while tb is not None:
+        frames.append(tb.tb_frame)
+        tb = tb.tb_next
+    vroot = os.path.realpath(VERIF) + os.sep
+    where = [os.path.realpath(f.f_code.co_filename) for f in frames]
+    last_oracle = max((i for i, w in enumerate(where) if w.startswith(vroot)), default=None)
+    if last_oracle is None or not any(w.startswith(root) for w in where[last_oracle + 1:]):
+        return None         # raised by the oracle itself, or in a dependency it called directly
+    oracle = [f for f, w in zip(frames, where) if w.startswith(vroot)]
+    loc = {}
+    for f in oracle[-2:]:
+        for k, v in f.f_locals.items():
+            if k.startswith("_") or callable(v) or isinstance(v, type(os)):
+                continue
+            try:
+                r = repr(v)
+            except Exception:
+                continue
+            if len(r) <= 400:
+                loc[k] = r
+    return dict(oracle_frame=oracle[-1].f_code.co_name, locals=loc)
 
 
 def _child(fn, arg, conn):
@@ -281,11 +334,7 @@ def run_property(pid, tier="quick", seed=0, jobs=None):
         witness = None
         if not reproduced and hasattr(mod, "witness_search"):
             if "w" not in witness_cache:
-                try:
-                    witness_cache["w"] = mod.witness_search(tier, seed)
-                except Exception as e:
-                    witness_cache["w"] = None
-                    errors.append(f"witness search crashed: {type(e).__name__}: {e}")
+                witness_cache["w"] = _search(mod, tier, seed, errors)
             witness = witness_cache["w"]
             if witness:
                 reproduced = True
@@ -321,11 +370,7 @@ def run_property(pid, tier="quick", seed=0, jobs=None):
     cross = None
     if tier == "thorough" and hasattr(mod, "witness_search") and not violations:
         t1 = time.time()
-        try:
-            witness_cache["w"] = mod.witness_search(tier, seed)
-        except Exception as e:
-            witness_cache["w"] = None
-            errors.append(f"witness search crashed: {type(e).__name__}: {e}")
+        witness_cache["w"] = _search(mod, tier, seed, errors)
         cross = dict(name="statement-level-search", function="public API of the property (contracts/oracles, props witness_search)",
                      bound="the property's own small input space (see props module)", cases=1, failures=1 if witness_cache.get("w") else 0,
                      seconds=round(time.time() - t1, 2), label="bounded - never counted as proved")
@@ -342,11 +387,7 @@ def run_property(pid, tier="quick", seed=0, jobs=None):
     # the executable statement may turn it into one (DESIGN 4.2 step 3).
     if unknown_ids and not violations and hasattr(mod, "witness_search"):
         if "w" not in witness_cache:
-            try:
-                witness_cache["w"] = mod.witness_search(tier, seed)
-            except Exception as e:
-                witness_cache["w"] = None
-                errors.append(f"witness search crashed: {type(e).__name__}: {e}")
+            witness_cache["w"] = _search(mod, tier, seed, errors)
         if witness_cache["w"]:
             k = sorted(unknown_ids)[0]
             o = by_id[k][0]
@@ -363,11 +404,7 @@ def run_property(pid, tier="quick", seed=0, jobs=None):
     # undecided for the deductive part - but the statement-level search of the real code may still show a failing input.
     if errors and not violations and hasattr(mod, "witness_search"):
         if "w" not in witness_cache:
-            try:
-                witness_cache["w"] = mod.witness_search(tier, seed)
-            except Exception as e:
-                witness_cache["w"] = None
-                errors.append(f"witness search crashed: {type(e).__name__}: {e}")
+            witness_cache["w"] = _search(mod, tier, seed, errors)
         if witness_cache.get("w"):
             path = os.path.join("replay", f"{pid}-search.json")
             with open(os.path.join(OUT_DIR, path), "w") as f:
